@@ -21,7 +21,7 @@ def run(tier):
                       "thread from an odd address (same digest required) and drives the lookup helpers / glyph loading of the "
                       "damaged font on every 8th. CmapIter.tla (clamping rule of the cmap 4 / 12 iterators: strictly ascending yields for every "
                       "list of <= 3 overlapping / contained / descending groups) and PackedHostile.tla (every packed-delta stream of "
-                      "<= 3 control/data bytes behind private point lists) enumerate hostile inputs for two hand-written decoders, and Index.tla (the CFF INDEX reader: every small count x offset size x offset array incl. backwards / zero / out-of-data offsets, complete and cut short, with the answers for get(0..count+1)) for a third; "
+                      "<= 3 control/data bytes behind private point lists) enumerate hostile inputs for two hand-written decoders, ContextClosure.tla ((chained) sequence context lookups in all three formats whose lookup records carry any sequence index incl. beyond the rule's input, and range coverage tables with start coverage indices at the top of the 16-bit range; compiled with write-fonts, closed over / queried by read-fonts, the closure compared with the model's exact .. over-approximated range) and Index.tla (the CFF INDEX reader: every small count x offset size x offset array incl. backwards / zero / out-of-data offsets, complete and cut short, with the answers for get(0..count+1)) for a third; "
                       "the raw tables are iterated by the real code under a deadline.")
     ck.assumptions = ["tables are exercised through the instances that occur in the corpus (evidence: tables_seen); CFF/CFF2 have "
                       "no traversal impl and are reached through glyph loading only",
@@ -84,9 +84,17 @@ def run(tier):
     res = vlib.run_harness("fv-total", ["c01", "packed", "--cases", r.out, "--out", t4])
     ck.add_harness("replay:packed", res, traces=False)
     os.remove(r.out)
+    r = vlib.run_tlc(wd, "ContextClosure", cfg="ContextClosure.cfg", workers=2, timeout=600)
+    ck.add_tlc("tlc:ContextClosure", r)
+    if not r.ok:
+        ck.spec_error("ContextClosure", r)
+    t4b = os.path.join(wd, "layhostile.ndjson")
+    res = vlib.run_harness("fv-total", ["c01", "layhostile", "--cases", r.out, "--out", t4b])
+    ck.add_harness("replay:layout-hostile", res, traces=False)
+    os.remove(r.out)
     t5 = os.path.join(wd, "decoders.ndjson")
     with open(t5, "w") as out:
-        for t in (t3, t4):
+        for t in (t3, t4, t4b):
             out.write(open(t).read())
     ok, info = vlib.validate_trace(wd, "ReadTrace", t5, timeout=1800)
     ck.cov["parts"]["validate:decoders"] = info
